@@ -959,10 +959,47 @@ def getitem(I, t, key):
     while ax < a.rank:
         plan.append(("keep", ax, a.shape[ax], (lambda c: c)))
         ax += 1
-    if len(adv) > 1:
-        raise Unsupported("more than one advanced index")
+    zipped = None
+    if len(adv) == 2:
+        # two advanced indices are broadcast against each other and paired element-wise (numpy/torch semantics)
+        pa = [i for i, st in enumerate(plan) if st[0] in ("adv", "gather", "gatherS")]
+        if pa[1] != pa[0] + 1:
+            raise Unsupported("non-adjacent advanced indices")
+
+        def adv_len(st):
+            return st[2].val.shape[0] if st[0] == "adv" else Dim([len(st[2])])
+
+        la, lb = adv_len(plan[pa[0]]), adv_len(plan[pa[1]])
+        ca, cb = la.concrete(), lb.concrete()
+        if ca == 1:
+            zdim, ua, ub = lb, False, True
+        elif cb == 1:
+            zdim, ua, ub = la, True, False
+        else:
+            eq = la.size_term() == lb.size_term()
+            if not I.ctx.entails(eq):
+                if not I.decide(eq):
+                    # a symbolic length may still be 1 and broadcast
+                    if ca is None and I.decide(la.size_term() == 1):
+                        zdim, ua, ub = lb, False, True
+                    elif cb is None and I.decide(lb.size_term() == 1):
+                        zdim, ua, ub = la, True, False
+                    else:
+                        raise IN.RaisedEx("IndexError", "shape mismatch: indexing tensors could not be broadcast together", I.ctx.loc)
+                else:
+                    zdim, ua, ub = (la if len(la.factors) == 1 else lb), True, True
+            else:
+                zdim, ua, ub = la, True, True
+        zipped = (pa[0], pa[1], zdim, ua, ub)
+    elif len(adv) > 2:
+        raise Unsupported("more than two advanced indices")
     shape = []
-    for st in plan:
+    for pi_, st in enumerate(plan):
+        if zipped is not None and pi_ == zipped[1]:
+            continue
+        if zipped is not None and pi_ == zipped[0]:
+            shape.append(zipped[2])
+            continue
         if st[0] == "new":
             shape.append(Dim([]))
         elif st[0] == "keep":
@@ -975,6 +1012,14 @@ def getitem(I, t, key):
     def fn(idx):
         full = [None] * a.rank
         p = 0
+        if zipped is not None:
+            # re-expand the zipped axis into one (possibly constant) index per advanced position
+            za, zb, zdim, ua, ub = zipped
+            idx = list(idx)
+            shared = idx[za]
+            first = shared if ua else ((0,) if shared else ())
+            second = shared if ub else ((0,) if shared else ())
+            idx = idx[:za] + [first, second] + idx[za + 1 :]
         for st in plan:
             if st[0] == "new":
                 p += 1
@@ -1141,8 +1186,14 @@ def setitem(I, t, key, v):
             else:
                 n = d.concrete()
                 if n is None:
-                    raise Unsupported("slice assignment on symbolic axis")
-                rng = range(*k.indices(n))
+                    lo_, hi_, st_ = k.start or 0, k.stop, k.step
+                    if not (isinstance(lo_, int) and isinstance(hi_, int) and st_ in (None, 1) and 0 <= lo_ <= hi_ and len(d.factors) == 1):
+                        raise Unsupported("slice assignment on symbolic axis")
+                    if not I.ctx.entails(d.size_term() >= hi_):
+                        raise Unsupported("slice assignment possibly beyond a symbolic axis")
+                    rng = range(lo_, hi_)
+                else:
+                    rng = range(*k.indices(n))
                 preds.append(("rng", d, rng)); vshape.append(Dim([len(rng)]))
         elif isinstance(k, (int, Sym)) and not isinstance(k, bool):
             preds.append(("fix", d, _int_index(I, d, k)))
